@@ -23,11 +23,16 @@ except Exception as e:
     bad.append("is_app_frame raised %r with DEEP_IN_APP_EXCLUDE given as comma separated text" % (e,))
 pt = svc.POLL_TIMER
 try:
-    from deep.utils import RepeatedTimer
-    t = RepeatedTimer("t", pt, lambda: None)
-    _ = t._time
+    from deep.poll.poll import LongPoll
+    LongPoll.poll = lambda self: None          # no network: only the timer set-up is exercised
+    lp = LongPoll(svc, None)
+    lp.start()
+    try:
+        _ = lp.timer._time                      # what the timer thread computes before every wait
+    finally:
+        lp.shutdown()
 except Exception as e:
-    bad.append("DEEP_POLL_TIMER=5 gives interval %r and the poll timer fails: %r" % (pt, e))
+    bad.append("DEEP_POLL_TIMER=5 resolves to %r and the poll timer cannot be set up / fails: %r" % (pt, e))
 for b in bad:
     print("REPRODUCED:", b)
 sys.exit(1 if bad else 0)
